@@ -22,13 +22,13 @@ EXECUTOR = X.C02Executor
 
 
 def _sl(st, v):
-    """(n, cat, sqj) of a str list in either representation."""
+    """(n, cat, lead) of a str list in either representation."""
     o = st.obj(v.ref)
     if o.kind == "slist":
-        return o.data["n"], o.data["cat"], o.data["sqj"]
+        return o.data["n"], o.data["cat"], o.data["lead"]
     if o.kind == "list" and o.data is not None and all(isinstance(x, VStr) for x in o.data):
         items = [x.t for x in o.data]
-        return z3.IntVal(len(items)), cc(*items) if items else lit(""), X.sq_join_blank(items)
+        return z3.IntVal(len(items)), cc(*items) if items else lit(""), X.lead_of_items(items)
     raise X.Unsupported(f"not a list of str: {o.kind}")
 
 
@@ -38,8 +38,7 @@ def cat_of(st, v):
 
 def lead_of(st, v):
     """Leading-blank normal form of the blank-separated sq-join: every item prefixed by one blank."""
-    n, _c, sqj = _sl(st, v)
-    return z3.If(n == 0, lit(""), X.SQ_cat(lit(" "), sqj))
+    return _sl(st, v)[2]
 
 
 def cc(*ts):
@@ -87,10 +86,10 @@ def _odf_item_def(c, sp, tab, lb, attr, skip):
     return [ODF_ITEM(c, sp, tab, lb, attr, skip) == cc(body, TAIL(c)), z3.Implies(TAIL_NONE(c), TAIL(c) == lit(""))]
 
 
-define(T.REP, lambda s_, n: [z3.Implies(n == 1, T.REP(s_, n) == s_)])       # x * 1 == x
+define(T.REP, lambda s_, n: [z3.Implies(n == 1, T.REP(s_, n) == s_)], aux=True)       # x * 1 == x
 define(ODF_TEXT, _odf_text_def)
 define(ODF_KIDS, _odf_kids_def)
-define(ODF_ITEM, _odf_item_def)
+define(ODF_ITEM, _odf_item_def, aux=True)
 
 ODF_KW = ["text_space_tag", "text_tab_tag", "text_line_break_tag", "attr_text_c"]
 
@@ -215,7 +214,8 @@ class Dx:
         k1 = z3.simplify(k - 1)
         c = CH(e, k1)
         return [self.RUN(e, k, inc) == z3.If(k <= 0, lit(""), cc(self.RUN(e, k1, inc), self.run_item(c, inc))),
-                z3.Implies(TEXT_NONE(c), TEXT(c) == lit(""))]
+                z3.Implies(TEXT_NONE(c), TEXT(c) == lit("")),
+                z3.Implies(is_brk(TAG(c)), NCH(c) == 0)]          # OOXML-SCHEMA: w:tab / w:br / w:cr are empty elements
 
 
 DXN = Dx("nw", NW, "", "")
@@ -328,42 +328,47 @@ def docx_contracts():
     # ---- body level --------------------------------------------------------------------------
     def tbl_result(ex, st, ctx):
         n = z3.Int(fresh_name("table_texts.len"))
-        cat, sqj = z3.String(fresh_name("table_texts.cat")), z3.String(fresh_name("table_texts.sqj"))
-        st.assume(z3.And(n >= 0, z3.Implies(n == 0, z3.And(cat == lit(""), sqj == lit("")))))
-        return X.mk_slist(ex, st, n, cat, sqj, fresh=True)
+        cat, lead = z3.String(fresh_name("table_texts.cat")), z3.String(fresh_name("table_texts.lead"))
+        st.assume(X.slist_wf(n, cat, lead))
+        return X.mk_slist(ex, st, n, cat, lead, fresh=True)
 
     table = FnContract(
         target=f"{DOCX}::_extract_table_text",
         params=[("table", p_elem()), ("include_formulas", p_bool())],
         assumed=True, result_maker=tbl_result,
         ensures=[("nw", lambda c: NW(cat_of(c.st, c.result)) == TBLN(c.args["table"].t, c.args["include_formulas"].t)),
-                 ("sq", lambda c: lead_of(c.st, c.result) == TBLS(c.args["table"].t, c.args["include_formulas"].t))],
+                 ("sq", lambda c: lead_of(c.st, c.result) == TBLS(c.args["table"].t, c.args["include_formulas"].t)),
+                 ("pieces-not-blank", lambda c: (_sl(c.st, c.result)[0] == 0) == (NW(cat_of(c.st, c.result)) == lit("")))],
         note="callee contract used by the body walk; the function itself is checked exhaustively over small trees (BOUNDED, replay/C02.py)",
     )
 
     def body_inv(lc):
         e, inc = lc["body"].t, lc["include_formulas"].t
         last = TAG(CH(e, z3.simplify(lc.i - 1)))
-        goals = [("nw", NW(cat_of(lc.st, lc["all_text"])) == BODYN(e, lc.i, inc)),
-                 ("sq", lead_of(lc.st, lc["all_text"]) == BODYS(e, lc.i, inc))]
+        n, cat, _lead = _sl(lc.st, lc["all_text"])
+        goals = [("nw", NW(cat) == BODYN(e, lc.i, inc)),
+                 ("sq", lead_of(lc.st, lc["all_text"]) == BODYS(e, lc.i, inc)),
+                 ("pieces-not-blank", (n == 0) == (NW(cat) == lit("")))]
         return Conj([(f"{nm}[{cn}]", z3.Implies(g(last), t)) for nm, t in goals for cn, g in BODY_CHILD_CASES])
 
     def body_post_nw(c):
         if isinstance(c.args["body"], VNoneT):
-            return NW(c.result.t) == lit("")
+            return c.result.t == lit("")
         return NW(c.result.t) == BODYN(c.args["body"].t, NCH(c.args["body"].t), c.args["include_formulas"].t)
 
     def body_post_sq(c):
         if isinstance(c.args["body"], VNoneT):
-            return SQ(c.result.t) == lit("")
+            return c.result.t == lit("")
         bs = BODYS(c.args["body"].t, NCH(c.args["body"].t), c.args["include_formulas"].t)
-        return z3.Or(z3.And(bs == lit(""), SQ(c.result.t) == lit("")), cc(" ", SQ(c.result.t)) == bs)
+        return z3.If(c.result.t == lit(""), bs == lit(""), cc(" ", SQ(c.result.t)) == bs)
 
     body = FnContract(
         target=f"{DOCX}::_extract_full_text_from_body",
         params=[("body", p_opt(p_elem())), ("include_formulas", Maker(lambda ex, st, name: VBool(z3.Bool(name)), desc="bool", default=lambda ex, st: VBool(True)))],
         ensures=[("nw(result)==nw-of-blocks-in-order", body_post_nw),
-                 ("sq(result)==blocks-separated-by-whitespace", body_post_sq)],
+                 ("sq(result)==blocks-separated-by-whitespace", body_post_sq),
+                 ("result-empty-iff-no-visible-text", lambda c: (c.result.t == lit("")) == (NW(c.result.t) == lit("")))],
+        result_maker=lambda ex, st, ctx: VStr(z3.String(fresh_name("body_text"))),
         loops={0: LoopSpec(inv=body_inv, label="blocks")},
     )
     return [process, omml, para, table, body]
@@ -559,7 +564,7 @@ def _pn_kids_def(n, k):
 
 
 # class invariant of the tree the builder makes (C17: no node of a removed tag is ever added), instantiated at every child term
-define(H_CH, lambda n, k: [z3.Implies(z3.And(k >= 0, k < H_NCH(n)), z3.Not(tag_in(H_TAG(H_CH(n, k)), H_REMOVE)))])
+define(H_CH, lambda n, k: [z3.Implies(z3.And(k >= 0, k < H_NCH(n)), z3.Not(tag_in(H_TAG(H_CH(n, k)), H_REMOVE)))], aux=True)
 define(PN, _pn_def)
 define(PN_KIDS, _pn_kids_def)
 
@@ -712,7 +717,7 @@ REPLAY_UNKNOWN = True
 
 TRUSTED = ["zip / XML / OLE / PDF parsing (bytes -> tree) is outside every contract; the obligations are about the library's own walkers"]
 ASSUMED_MODELS = X.ASSUMED_MODELS
-ASSUMPTIONS = ["PY-STR", "TREE-FINITE", "WS-CLASS: str.strip, str.split, \\s and str.isspace agree on the whitespace class",
+ASSUMPTIONS = ["OOXML-SCHEMA: w:tab, w:br and w:cr are empty elements (ECMA-376 CT_Empty / CT_Br)", "PY-STR", "TREE-FINITE", "WS-CLASS: str.strip, str.split, \\s and str.isspace agree on the whitespace class",
                "DT-TYPED: list[str] fields / parameters hold str items",
                "partial correctness: termination of the recursive walkers is C01's obligation"]
 BOUNDED = [
